@@ -378,6 +378,14 @@ func (s *sender) resendSegment() {
 
 	// Resend the segment.
 	if seg := s.writeList.Front(); seg != nil {
+		// 路径MTU变小之后,队首的段可能还是原来的大小,重发之前先按当前的最大负载分段
+		if seg.data.Size() > s.maxPayloadSize {
+			nSeg := seg.clone()
+			nSeg.data.TrimFront(s.maxPayloadSize)
+			nSeg.sequenceNumber.UpdateForward(seqnum.Size(s.maxPayloadSize))
+			s.writeList.InsertAfter(seg, nSeg)
+			seg.data.CapLength(s.maxPayloadSize)
+		}
 		s.sendSegment(seg.data, seg.flags, seg.sequenceNumber)
 	}
 }
